@@ -1,20 +1,47 @@
 (* C18 - host functions receive the right arguments and can safely re-enter scripts.  PARTIAL.
-   Statements only; proofs are in Cao.VmProofs and Cao.VmNativeProofs (model Cao.Vm: traits.rs wrappers = peek k
-   arguments, convert last-to-first, call, pop_n::<k>; call_native; run_function).
-   Proved for the model: argument order / conversion / consumption / result for one wrapper of every arity:
-   arity 1 (C18_native_args_str1, C18_native_args_nil1 = Nilable<i64>: None exactly for nil), arity 2
-   (C18_native_args_sub2), arity 3 (C18_native_args_mix3), arity 4 (C18_native_args_t4); conversion failure naming
-   the parameter and still consuming every argument (C18_conversion_error_str1, C18_conversion_error_t4: the last
-   parameter is converted first); error wrapping as TaskFailure{registered name} for EVERY native of the menu
-   (C18_native_error_wrapped), unknown names; run_function restores the caller's stack and frames once the callee
-   reaches its Return with them intact (C18_reentry_balanced_partial).
-   NOT proved, claimed by the correspondence run only: the same for the remaining natives of the menu (checked
-   by code 1 of C18Check.v on the host log, and by the conv_spec oracle, code 2, on the recorded invocations);
-   the missing half of reentry_balanced (the callee's body keeps the caller's part of the stack and the frames
-   below its own intact up to its Return: frame discipline of compiled code; checked by the rb1 oracle, code 2);
-   `register_native_function` rejecting names that start with "__" (harness-level check, code 2). *)
+   Statements only; proofs are in Cao.VmProofs, Cao.VmNativeProofs, Cao.VmNativeMenuProofs, Cao.VmRegistryProofs
+   (model Cao.Vm: traits.rs wrappers = peek k arguments, convert last-to-first, call, pop_n::<k>; call_native;
+   run_function.  Cao.VmNativeMenu: the signature table [native_sig], the conversions [conv] = TryFrom<Value> for
+   i64 / f64 / bool / &str / &CaoLangTable / Value / Nilable<T>, the host functions [native_fn] as functions of the
+   parameters they receive.  Cao.VmRegistry: register_native_function / _register_native_function /
+   register_native_stdlib on the table of callables).
+   Proved for the model:
+   * GENERIC, for EVERY native n of the menu (Vm.all_natives: log1 sub2 fail0 str1 mix3 call1 try1 call0 t4 nil1 tab1
+     cat2 rb1 and the library's __min __max __sort __to_array), arity k = 0..4, stack  l ++ [v1..vk]:
+     Vm.native_body n IS the typed wrapper of traits.rs over the signature table (C18_native_wrapper_generic);
+     if every conversion succeeds the function is called with (conv T1 v1 .. conv Tk vk) in declaration order, then
+     exactly k values are popped and the result pushed / the error wrapped as TaskFailure{name}
+     (C18_native_args_menu); if a conversion fails the error names the LAST parameter that fails (conversion is
+     last-to-first), the function does not run and all k arguments are consumed (C18_conversion_error_menu); for
+     the natives that do not re-enter the VM the result, the log entry and the whole final state
+     (C18_native_args_menu_simple).  The per-native theorems below (sub2, str1, nil1, mix3, t4, and the new cat2,
+     tab1, log1) are instances.
+   * re-entrant natives: call1 / try1 / rb1 hand run_function the callee they received, on the stack
+     l ++ [f; x; x] (C18_reentrant_args), call0 on the unchanged stack (C18_reentrant_args_call0); run_function on
+     a script function / closure enters the nested `_run` at the callee's label with two frames whose offset is
+     the height below the arguments (C18_run_function_enters).
+   * error wrapping as TaskFailure{registered name} for every native (C18_native_error_wrapped), unknown names;
+     run_function restores the caller's stack and frames once the callee reaches its Return with them intact
+     (C18_reentry_balanced_partial); for a RESTRICTED class of callees - body = straight-line ScalarNil / CopyLast /
+     Pop that never pops below its frame base, then Return - the callee provably gets there, so run_function is
+     balanced outright (C18_reentry_balanced_straightline).
+   * registration: the table after ANY history of public registrations = the last accepted registration per
+     handle (C18_registry_history: a later registration of a name replaces name and function,
+     C18_registration_replaces); rejected exactly the names starting with "__" (C18_registry_answers,
+     C18_std_names_rejected); the four library natives stay registered as long as no accepted name has the HASH of
+     one of theirs (C18_std_natives_kept) - and that hypothesis is needed: "tuewgsg" has the handle of "__min", is
+     accepted and replaces the library's native (C18_std_native_shadowed_by_collision: the reservation is by name,
+     the table is keyed by the 32-bit FNV-1a hash; replayed on the crate by `cao-verif-harness c18-witness`);
+     Vm::new + the registrations of the harness give exactly the lookup Vm.find_native that call_native uses
+     (C18_menu_registry_is_find_native).
+   Witnesses (hypotheses satisfiable, concrete runs): Cao.VmNativeMenuWitness.
+   NOT proved, claimed by the correspondence run only: the missing half of reentry_balanced for callees outside that
+   class (the body of ANY compiled callee keeps the caller's part of the stack and the frames below its own intact
+   up to its Return: frame discipline of compiled code; checked by the rb1 oracle, code 2); that the bodies [native_fn] / the menu are the Rust functions
+   of vmrun.rs / stdlib.rs (code 1 on the host log, conv_spec oracle code 2 on the recorded invocations); the
+   allocation failure of HandleTable::grow during a registration is outside the registry model. *)
 From Coq Require Import NArith ZArith List Lia.
-From Cao Require Import Stacks Bits Vm VmProofs VmNativeProofs.
+From Cao Require Import Stacks Bits Vm VmProofs VmNativeProofs VmNativeMenu VmNativeMenuProofs VmRegistry VmRegistryProofs VmReentryPushes.
 Import ListNotations.
 
 (* sub2(a: i64, b: i64) called with the stack l ++ [v1; v2]: a = conv v1 (declared first), b = conv v2; exactly
@@ -157,3 +184,242 @@ Theorem C18_reentry_balanced_partial :
     stack_ok s' /\ stack_of s' = l /\ st_calls s' = st_calls s.
 Proof. exact reentry_balanced_partial. Qed.
 Print Assumptions C18_reentry_balanced_partial.
+
+(* ------------------------------------------------------------------ *)
+(* The whole menu, generically                                         *)
+(* ------------------------------------------------------------------ *)
+
+(* for every native of the menu the model's body is the typed wrapper of traits.rs (peek the k arguments, convert
+   them last-to-first according to the signature table, call the host function with the converted parameters) *)
+Theorem C18_native_wrapper_generic : forall F P re self n s l vs,
+  stack_ok s -> stack_of s = l ++ vs -> length vs = native_arity n ->
+  native_body F P re self n s =
+  match conv_args F (native_sig n) vs 1 (st_heap s) with
+  | CaOk args => native_fn F P re self n args s
+  | CaFail i => NErr (EConversion (N.of_nat i)) s
+  | CaUb => NStop AUB s
+  end.
+Proof. exact native_wrapper_generic. Qed.
+Print Assumptions C18_native_wrapper_generic.
+
+(* native_args, every native n of the menu, arity k, stack  l ++ [v1..vk]: when conv T_j v_j = args_j for every
+   parameter, the host function receives exactly  args  (declaration order); what it answers is then finished by
+   pop_n::<k> and push of the result / TaskFailure{name} around the error *)
+Theorem C18_native_args_menu : forall F P re fuel n s l vs args,
+  stack_ok s -> stack_of s = l ++ vs -> length vs = native_arity n -> length args = native_arity n ->
+  (forall j, j < native_arity n ->
+             conv F (nth j (native_sig n) TyValue) (st_heap s) (nth j vs VNil) = CvOk (nth j args ANone)) ->
+  call_native_fuel F P re (S fuel) (handle_of_bytes (native_name n)) s
+  = native_finish n (native_fn F P re (call_native_fuel F P re fuel) n args s).
+Proof. exact native_args_menu. Qed.
+Print Assumptions C18_native_args_menu.
+
+(* parameter j+1 does not convert and every later one does: InvalidArgument naming parameter j+1 whatever the
+   earlier parameters are, wrapped as TaskFailure{name}; the function does not run; all k arguments are consumed *)
+Theorem C18_conversion_error_menu : forall F P re fuel n s l vs j,
+  stack_ok s -> stack_of s = l ++ vs -> length vs = native_arity n ->
+  j < native_arity n ->
+  conv F (nth j (native_sig n) TyValue) (st_heap s) (nth j vs VNil) = CvFail ->
+  (forall j', j < j' -> j' < native_arity n ->
+              exists a, conv F (nth j' (native_sig n) TyValue) (st_heap s) (nth j' vs VNil) = CvOk a) ->
+  exists s',
+    call_native_fuel F P re (S fuel) (handle_of_bytes (native_name n)) s
+      = NErr (ETaskFailure (native_name n) (EConversion (N.of_nat (S j)))) s' /\
+    stack_ok s' /\ stack_of s' = l /\ st_calls s' = st_calls s /\ st_globals s' = st_globals s /\
+    st_heap s' = st_heap s /\ st_log s' = st_log s.
+Proof. exact native_conversion_error_menu. Qed.
+Print Assumptions C18_conversion_error_menu.
+
+(* the natives that do not re-enter the VM (log1 sub2 str1 mix3 t4 nil1 tab1 cat2): result and log entry are
+   [simple_result] of the received parameters; the k arguments are replaced by the result, nothing else changes *)
+Theorem C18_native_args_menu_simple : forall F P re fuel n s l vs args,
+  simple_native n = true ->
+  stack_ok s -> stack_of s = l ++ vs -> length vs = native_arity n -> length args = native_arity n ->
+  (forall j, j < native_arity n ->
+             conv F (nth j (native_sig n) TyValue) (st_heap s) (nth j vs VNil) = CvOk (nth j args ANone)) ->
+  exists v e s',
+    simple_result F n args (length l + native_arity n) (length (st_calls s)) (st_heap s) = Some (v, e) /\
+    call_native_fuel F P re (S fuel) (handle_of_bytes (native_name n)) s = NOk v s' /\
+    stack_ok s' /\ stack_of s' = l ++ [v] /\ st_log s' = st_log s ++ [e] /\
+    st_calls s' = st_calls s /\ st_globals s' = st_globals s /\ st_heap s' = st_heap s.
+Proof. exact native_args_menu_simple. Qed.
+Print Assumptions C18_native_args_menu_simple.
+
+(* instances for natives that had no theorem before *)
+Theorem C18_native_args_cat2 : forall F P re fuel s l v1 v2 a b,
+  stack_ok s -> stack_of s = l ++ [v1; v2] ->
+  as_str (st_heap s) v1 = SIs a -> as_str (st_heap s) v2 = SIs b ->
+  exists s',
+    call_native_fuel F P re (S fuel) (handle_of_bytes name_cat2) s = NOk (VInt (Z.of_nat (length a + length b))) s' /\
+    stack_of s' = l ++ [VInt (Z.of_nat (length a + length b))] /\
+    st_log s' = st_log s ++ [[TStr a; TStr b]] /\
+    st_calls s' = st_calls s /\ st_globals s' = st_globals s /\ st_heap s' = st_heap s.
+Proof. exact native_args_cat2. Qed.
+Print Assumptions C18_native_args_cat2.
+
+(* cat2(a: &str, b: &str): b is converted first: #2 when b is not a string (whatever a is), #1 only when b is *)
+Theorem C18_conversion_error_cat2 : forall F P re fuel s l v1 v2,
+  stack_ok s -> stack_of s = l ++ [v1; v2] ->
+  (as_str (st_heap s) v2 = SNot \/ (as_str (st_heap s) v1 = SNot /\ exists b, as_str (st_heap s) v2 = SIs b)) ->
+  exists s',
+    call_native_fuel F P re (S fuel) (handle_of_bytes name_cat2) s
+      = NErr (ETaskFailure name_cat2
+                (EConversion (match as_str (st_heap s) v2 with SNot => 2 | _ => 1 end))) s' /\
+    stack_of s' = l /\ st_calls s' = st_calls s /\ st_globals s' = st_globals s /\ st_heap s' = st_heap s /\
+    st_log s' = st_log s.
+Proof. exact native_conversion_error_cat2. Qed.
+Print Assumptions C18_conversion_error_cat2.
+
+Theorem C18_native_args_tab1 : forall F P re fuel s l v a t,
+  stack_ok s -> stack_of s = l ++ [v] -> get_table (st_heap s) v = TblOk a t ->
+  exists s',
+    call_native_fuel F P re (S fuel) (handle_of_bytes name_tab1) s = NOk (VInt (Z.of_nat (length (tkeys t)))) s' /\
+    stack_of s' = l ++ [VInt (Z.of_nat (length (tkeys t)))] /\
+    st_log s' = st_log s ++ [[TInt (Z.of_nat (length (tkeys t)))]] /\
+    st_calls s' = st_calls s /\ st_globals s' = st_globals s /\ st_heap s' = st_heap s.
+Proof. exact native_args_tab1. Qed.
+Print Assumptions C18_native_args_tab1.
+
+Theorem C18_native_args_log1 : forall F P re fuel s l v,
+  stack_ok s -> stack_of s = l ++ [v] ->
+  exists s',
+    call_native_fuel F P re (S fuel) (handle_of_bytes name_log1) s = NOk VNil s' /\
+    stack_of s' = l ++ [VNil] /\
+    st_log s' = st_log s ++ [[TInt (Z.of_nat (length l + 1)); TInt (Z.of_nat (length (st_calls s)));
+                              tree_of F (st_heap s) v]] /\
+    st_calls s' = st_calls s /\ st_globals s' = st_globals s /\ st_heap s' = st_heap s.
+Proof. exact native_args_log1. Qed.
+Print Assumptions C18_native_args_log1.
+
+(* ------------------------------------------------------------------ *)
+(* Re-entrant natives                                                  *)
+(* ------------------------------------------------------------------ *)
+
+(* call1 / try1 / rb1 (f: Value, x: Value) with the stack  l ++ [f; x]: run_function is called with the received
+   callee f on the stack  l ++ [f; x; x]  (x pushed once more: the callee's argument); its answer is handed back
+   (call1), an error swallowed (try1), the heights logged (rb1) - [reentrant_post] -, then pop_n::<2> *)
+Theorem C18_reentrant_args : forall F P re fuel n s l f x,
+  pushes_arg n = true ->
+  stack_ok s -> stack_of s = l ++ [f; x] ->
+  S (length l + 2) < length (vdata (st_stack s)) ->
+  let self := call_native_fuel F P re fuel in
+  exists s1,
+    stack_ok s1 /\ stack_of s1 = l ++ [f; x; x] /\
+    st_calls s1 = st_calls s /\ st_globals s1 = st_globals s /\ st_heap s1 = st_heap s /\ st_log s1 = st_log s /\
+    call_native_fuel F P re (S fuel) (handle_of_bytes (native_name n)) s
+    = native_finish n (reentrant_post n s f (run_function P re self f s1)).
+Proof. exact reentrant_args. Qed.
+Print Assumptions C18_reentrant_args.
+
+Theorem C18_reentrant_args_call0 : forall F P re fuel s l f,
+  stack_ok s -> stack_of s = l ++ [f] ->
+  call_native_fuel F P re (S fuel) (handle_of_bytes name_call0) s
+  = native_finish NCall0 (run_function P re (call_native_fuel F P re fuel) f s).
+Proof. exact reentrant_args_call0. Qed.
+Print Assumptions C18_reentrant_args_call0.
+
+(* run_function on a script function / closure of arity |args|, stack  l ++ args: the nested `_run` [re] is entered
+   at the callee's label with the value stack as it is and two frames (trap frame + callee frame) returning to the
+   final Exit, whose stack offset |l| makes args the callee's parameters; [after_reenter]: the frames are unwound
+   to the depth before, the result popped *)
+Theorem C18_run_function_enters :
+  forall P re cn (a : N) (s : state) (l args : list value) h ar ups (is_clo : bool) src,
+  let fr := mkFrame src (last_pos P) (N.of_nat (length l)) (if is_clo then Some a else None) in
+  stack_ok s -> stack_of s = l ++ args -> length args = N.to_nat ar ->
+  hget (st_heap s) a = Some (callee_obj is_clo h ar ups) ->
+  assoc h (p_labels P) = Some src ->
+  S (length (st_calls s)) < call_stack_size ->
+  (code_len P <> 0)%N ->
+  run_function P re cn (VObj a) s
+  = after_reenter (length (st_calls s)) (re src (set_calls s (fr :: fr :: st_calls s))).
+Proof. exact run_function_enters. Qed.
+Print Assumptions C18_run_function_enters.
+
+(* ------------------------------------------------------------------ *)
+(* Registration                                                        *)
+(* ------------------------------------------------------------------ *)
+
+(* the table of callables after any history of register_native_function calls *)
+Theorem C18_registry_history : forall ops r h,
+  reg_get (fst (run_public r ops)) h
+  = match last_accepted ops h with
+    | Some (name, f) => Some (mkProc name f)
+    | None => reg_get r h
+    end.
+Proof. exact registry_history. Qed.
+Print Assumptions C18_registry_history.
+
+Theorem C18_registry_answers : forall ops r,
+  snd (run_public r ops) = map (fun op => if starts_reserved (fst op) then RegRejected else RegOk) ops.
+Proof. exact registry_answers. Qed.
+Print Assumptions C18_registry_answers.
+
+(* reserved_names: the names of the library's natives cannot be registered, whatever the table holds *)
+Theorem C18_std_names_rejected : forall r n f,
+  In n std_natives -> register_public r (native_name n) f = (r, RegRejected).
+Proof. exact std_names_rejected. Qed.
+Print Assumptions C18_std_names_rejected.
+
+Theorem C18_std_natives_kept : forall ops n,
+  In n std_natives ->
+  (forall name f, In (name, f) ops -> starts_reserved name = false ->
+                  handle_of_bytes name <> handle_of_bytes (native_name n)) ->
+  reg_get (fst (run_public vm_new_registry ops)) (handle_of_bytes (native_name n))
+  = Some (mkProc (native_name n) (StdFn n)).
+Proof. exact std_natives_kept. Qed.
+Print Assumptions C18_std_natives_kept.
+
+(* FINDING: without the hash hypothesis the statement is false - "tuewgsg" is accepted and takes the place of __min *)
+Theorem C18_std_native_shadowed_by_collision : forall f,
+  starts_reserved name_collides_min = false /\
+  handle_of_bytes name_collides_min = handle_of_bytes name_min /\
+  run_public vm_new_registry [(name_collides_min, f)]
+  = (fst (run_public vm_new_registry [(name_collides_min, f)]), [RegOk]) /\
+  reg_get (fst (run_public vm_new_registry [(name_collides_min, f)])) (handle_of_bytes name_min)
+  = Some (mkProc name_collides_min f).
+Proof. exact std_native_shadowed_by_collision. Qed.
+Print Assumptions C18_std_native_shadowed_by_collision.
+
+Theorem C18_registration_replaces : forall ops r name g,
+  starts_reserved name = false ->
+  reg_get (fst (run_public r (ops ++ [(name, g)]))) (handle_of_bytes name) = Some (mkProc name g).
+Proof. exact registration_replaces. Qed.
+Print Assumptions C18_registration_replaces.
+
+(* Vm::new + the registrations of harness/src/vmrun.rs new_vm: call_native's lookup is Vm.find_native *)
+Theorem C18_menu_registry_is_find_native : forall h,
+  reg_get menu_registry h
+  = match find_native h all_natives with
+    | Some n => Some (mkProc (native_name n) (StdFn n))
+    | None => None
+    end.
+Proof. exact menu_registry_is_find_native. Qed.
+Print Assumptions C18_menu_registry_is_find_native.
+
+(* reentry_balanced for a restricted class of callees: the body is [body] = ScalarNil (7) / CopyLast (9) / Pop (16)
+   in any order such that no Pop goes below the frame base ([body_height] from the |args| values above it) and at
+   least one value is above the base at the end, followed by Return (22); budget (|body| + 3) and stack room
+   suffice and no upvalue is open.  Then run_function (nested `_run` = the real dispatch loop with enough fuel)
+   returns a value, leaves exactly the caller's  l  on the value stack and exactly the caller's frames. *)
+Theorem C18_reentry_balanced_straightline :
+  forall F bld P re0 cn (a : N) (s : state) (l args : list value) h ar ups (is_clo : bool) src
+         (body : list N) (hh fuel : nat),
+  let re := fun ip st => loop F bld P re0 (length body + S (S fuel)) ip st in
+  stack_ok s -> stack_of s = l ++ args -> length args = N.to_nat ar ->
+  hget (st_heap s) a = Some (callee_obj is_clo h ar ups) ->
+  assoc h (p_labels P) = Some src ->
+  S (length (st_calls s)) < call_stack_size ->
+  (code_len P <> 0)%N ->
+  nth (N.to_nat (last_pos P)) (p_code P) 255%N = 10%N ->
+  st_open s = None ->
+  body_height body (length args) = Some (S hh) ->
+  (forall i, i < length body -> nth (N.to_nat src + i) (p_code P) 255%N = nth i body 255%N) ->
+  nth (N.to_nat src + length body) (p_code P) 255%N = 22%N ->
+  N.to_nat src + length body < length (p_code P) ->
+  (N.of_nat (length body) + 3 <= st_rem s)%N ->
+  length l + length args + length body + 1 < cap s ->
+  exists v s',
+    run_function P re cn (VObj a) s = NOk v s' /\
+    stack_ok s' /\ stack_of s' = l /\ st_calls s' = st_calls s.
+Proof. exact reentry_balanced_straightline. Qed.
+Print Assumptions C18_reentry_balanced_straightline.
